@@ -212,8 +212,86 @@ theorem chain_refines_kept (e : Env) (g s0 : St) (ops : List HOp) (he : EnvOK e 
     (hh : HistOK e g s0 (keptOps e s0 ops)) : Inv e g (hrun e s0 ops) :=
   chain_refines e g s0 ops he h0 ((histOK_keptOps e g ops s0).mpr hh)
 
--- a failing walk is NOT a no-op (the property speaks of a failed walk STEP): the full statement, refuted in the examples
--- at the end of this section once the example environment is defined
+-- ------------------------------------------------------------------ example environment and history
+-- block 1 = the root with the genesis transaction 0 (two outputs); blocks 2 and 3 are children of block 1, block 4 a child
+-- of 3, block 5 a child of 2 whose second transaction 51 spends an output that does not exist (a block that fails in the
+-- MIDDLE, after its award was applied). 21 creates key "k" and pays a fee, 22 spends an output of 21 and overwrites "k",
+-- 23 spends the second genesis output; 24 spends an unknown output (refused: missing input), 25 spends the same output as
+-- 23 (refused once 23 is pending), 26 cites a version of "k" that never existed (refused: stale version). Window 1.
+private def xEnv : Env := {
+  window := 1,
+  txs := [
+    (0, ⟨0, true, [], [⟨"u0", 5, 0⟩, ⟨"u9", 3, 0⟩], [], []⟩),
+    (20, ⟨20, true, [], [⟨"m2", 10, 0⟩], [], []⟩),
+    (21, ⟨21, false, [⟨0, 0, "u0", 5, 0, false⟩], [⟨"u1", 4, 0⟩, ⟨"$", 1, 0⟩], [⟨"k", none⟩], [⟨"k", "a", false⟩]⟩),
+    (22, ⟨22, false, [⟨21, 0, "u1", 4, 0, false⟩], [⟨"u2", 4, 0⟩], [⟨"k", some (21, 0)⟩], [⟨"k", "b", false⟩]⟩),
+    (23, ⟨23, false, [⟨0, 1, "u9", 3, 0, false⟩], [⟨"u8", 2, 0⟩, ⟨"$", 1, 0⟩], [], []⟩),
+    (24, ⟨24, false, [⟨7, 0, "u0", 5, 0, false⟩], [⟨"u6", 5, 0⟩], [], []⟩),
+    (25, ⟨25, false, [⟨0, 1, "u9", 3, 0, false⟩], [⟨"u7", 3, 0⟩], [], []⟩),
+    (26, ⟨26, false, [], [], [⟨"k", some (9, 9)⟩], [⟨"k", "z", false⟩]⟩),
+    (30, ⟨30, true, [], [⟨"m3", 10, 0⟩], [], []⟩),
+    (31, ⟨31, false, [⟨0, 0, "u0", 5, 0, false⟩], [⟨"u3", 5, 0⟩], [⟨"j", none⟩], [⟨"j", "c", false⟩]⟩),
+    (40, ⟨40, true, [], [⟨"m4", 10, 0⟩], [], []⟩),
+    (41, ⟨41, false, [⟨31, 0, "u3", 5, 0, false⟩], [⟨"u4", 5, 0⟩], [⟨"j", some (31, 0)⟩], [⟨"j", "", true⟩]⟩),
+    (50, ⟨50, true, [], [⟨"m5", 10, 0⟩], [], []⟩),
+    (51, ⟨51, false, [⟨8, 0, "u0", 5, 0, false⟩], [⟨"u5", 5, 0⟩], [], []⟩)],
+  blocks := [(1, ⟨1, none, 0, [0], "m1"⟩), (2, ⟨2, some 1, 1, [20, 21], "m2"⟩), (3, ⟨3, some 1, 1, [30, 31], "m3"⟩),
+    (4, ⟨4, some 3, 2, [40, 41], "m4"⟩), (5, ⟨5, some 2, 2, [50, 51], "m5"⟩)] }
+/-- the node at the root block: the canonical state of block 1 over the empty base state -/
+private def xS0 : St := { canon xEnv {} 1 with pool := [], pointer := 1 }
+/-- twelve operations, eight of which fail: missing input (24), block 2 played, bad parent (block 3 on tip 2), 22 accepted,
+22 again (already pending), stale version (26), 23 accepted, spent input (25), block 5 failing in its middle, a miner play
+on the wrong parent, a successful walk across the fork to block 3 (22 is dropped there, 23 re-admitted), 22 again (its
+input is gone) -/
+private def xOps : List HOp := [
+  .submit 0 24, .play 0 2, .play 0 3, .submit 0 22, .submit 0 22, .submit 0 26, .submit 0 23, .submit 0 25,
+  .play 0 5, .playMiner 0 3, .walk 0 3 false [], .submit 0 22]
+/-- … continued with two walks that FAIL: to block 2 at ledger height -1 (block 3 is undone, block 2 refused: its input
+counts as frozen; the node is left at block 1, the common ancestor), then — after blocks 3 and 4 were played, which moves
+the irreversible height to 1 — to block 2 again (block 4 is undone, the undo of block 3 refused at the irreversible
+height; the node is left at block 3) -/
+private def xOpsW : List HOp := xOps ++ [.walk (-1) 2, .submit 0 24, .play 0 3, .play 0 4, .walk 0 2, .submit 0 25]
+
+-- the failing operations of the history, each by its own verdict in the state in which it is reached
+example : (doTx xEnv xS0 0 24).2 = .utxo ∧
+    (play xEnv (hrun xEnv xS0 (xOps.take 2)) 0 (xEnv.block 3)).2 = .premismatch ∧
+    (doTx xEnv (hrun xEnv xS0 (xOps.take 4)) 0 22).2 = .inpool ∧
+    (doTx xEnv (hrun xEnv xS0 (xOps.take 5)) 0 26).2 = .rwset ∧
+    (doTx xEnv (hrun xEnv xS0 (xOps.take 7)) 0 25).2 = .utxo ∧
+    (play xEnv (hrun xEnv xS0 (xOps.take 8)) 0 (xEnv.block 5)).2 = .utxo ∧
+    (playForMiner xEnv (hrun xEnv xS0 (xOps.take 9)) 0 (xEnv.block 3)).2 = .premismatch ∧
+    (doTx xEnv (hrun xEnv xS0 (xOps.take 11)) 0 22).2 = .utxo := by decide
+-- the sub-list of the operations that did not fail; every walk of `xOps` succeeds: hypothesis of the main theorem
+example : liveOps xEnv xS0 xOps = [.play 0 2, .submit 0 22, .submit 0 23, .walk 0 3 false []] := by decide
+example : walksSucceed xEnv xS0 xOps = true := by decide
+example : hrun xEnv xS0 xOps = hrun xEnv xS0 [.play 0 2, .submit 0 22, .submit 0 23, .walk 0 3 false []] :=
+  failed_ops_leave_no_trace xEnv xS0 xOps (by decide)
+-- … and the history is that sub-list with the failing operations inserted
+example : FailuresInserted xEnv xS0 [.play 0 2, .submit 0 22, .submit 0 23, .walk 0 3 false []] xOps := by
+  have h : keptOps xEnv xS0 xOps = [.play 0 2, .submit 0 22, .submit 0 23, .walk 0 3 false []] := by decide
+  rw [← h]; exact (keptOps_inserted xEnv xS0 xOps).1
+-- a block of three failing operations between two parts of a history
+example : ∀ f ∈ [HOp.submit 0 24, .play 0 3, .playMiner 0 4],
+    isWalk f = false ∧ hopFails xEnv (hrun xEnv xS0 [.play 0 2, .submit 0 22]) f = true := by decide
+-- the final state, computed: block 3, pool [23]; with the failing walks: block 3, pool [25], irreversible height 1
+example : (hrun xEnv xS0 xOps).pointer = 3 ∧ (hrun xEnv xS0 xOps).pool = [23] ∧
+    (hrun xEnv xS0 xOpsW).pointer = 3 ∧ (hrun xEnv xS0 xOpsW).pool = [25] ∧ (hrun xEnv xS0 xOpsW).irrev = 1 := by decide
+-- with the failing walks kept, nothing is asked
+example : keptOps xEnv xS0 xOpsW = [.play 0 2, .submit 0 22, .submit 0 23, .walk 0 3 false [], .walk (-1) 2,
+    .play 0 3, .play 0 4, .walk 0 2, .submit 0 25] := by decide
+
+/-- the statement with the failing WALKS left out too -/
+def failed_walks_leave_no_trace_statement : Prop :=
+  ∀ (e : Env) (s : St) (ops : List HOp), hrun e s ops = hrun e s (liveOps e s ops)
+
+/-- **it is false, as the property says it ("a failed … walk step"): a failing walk is not a no-op.** Witness: the node at
+block 2 with the pending transaction 23 walks to block 3 at ledger height -1; block 2 is undone, block 3 is refused; the
+walk reports failure and leaves the node at block 1 with an empty pool (section 2 says exactly where) -/
+theorem failed_walk_leaves_trace : ¬ failed_walks_leave_no_trace_statement := by
+  intro h
+  have := congrArg St.pointer (h xEnv (hrun xEnv xS0 [.play 0 2, .submit 0 23]) [.walk (-1) 3])
+  revert this
+  decide
 
 -- ====================================================================================================================
 --                              2. a failing walk: its failing STEP writes nothing
@@ -343,5 +421,44 @@ theorem history_failed_walk_canonical (e : Env) (g s0 : St) (ops : List HOp) (he
   simp only [hopFails, Bool.not_eq_eq_eq_not, Bool.not_true] at hf
   obtain ⟨a, b, c, _, d⟩ := failed_walk_canonical e g _ lh dest prune skip he hinv hdest hf
   exact ⟨b, c, d, a⟩
+
+-- ------------------------------------------------------------------ examples for section 2
+private theorem xEnvOK : EnvOK xEnv {} :=
+  ⟨parentLower_of_blocks _ (by decide), by decide, by decide, by decide, by decide, by decide, by decide,
+    KVInv_empty _ _ rfl rfl, frozenInv_of_rows _ _ (by decide)⟩
+private theorem xInv0 : Inv xEnv {} xS0 :=
+  genesis_inv xEnv {} 1 (by decide) (XV.Crash.ChainValidC.sound (by decide))
+
+-- the three ways a walk fails. (a) block refused, nothing applied: from block 3 (pool [23]) to block 2 at ledger height -1
+-- — undo list [3] completed, apply list [2] refused at its first block: the node is at block 1 with an empty pool;
+-- (b) undo refused: from block 4 to block 2 with irreversible height 1 — undo list [4, 3], block 4 undone, block 3 refused:
+-- the node is at block 3; (c) block refused after one was applied: from block 3 to block 5 — undo list [3], apply list
+-- [2, 5], block 2 applied, block 5 refused at its second transaction: the node is at block 2, none of the award of block 5 stays
+example :
+    let a := hrun xEnv xS0 xOps
+    let b := hrun xEnv xS0 (xOpsW.take 16)
+    (walk xEnv a (-1) 2 false).2 = false ∧ undoTodo xEnv a.pointer 2 = ([3], [2]) ∧
+      (walk xEnv a (-1) 2 false).1.pointer = stepsPointer xEnv a.pointer [3] [] ∧
+      (walk xEnv a (-1) 2 false).1.pointer = 1 ∧ a.pool = [23] ∧
+    (walk xEnv b 0 2 false).2 = false ∧ undoTodo xEnv b.pointer 2 = ([4, 3], [2]) ∧
+      (walk xEnv b 0 2 false).1.pointer = stepsPointer xEnv b.pointer [4] [] ∧ (walk xEnv b 0 2 false).1.pointer = 3 ∧
+      ((xEnv.block 3).height : Int) ≤ (walk xEnv b 0 2 false).1.irrev ∧
+    (walk xEnv a 0 5 false).2 = false ∧ undoTodo xEnv a.pointer 5 = ([3], [2, 5]) ∧
+      (walk xEnv a 0 5 false).1.pointer = stepsPointer xEnv a.pointer [3] [2] ∧ (walk xEnv a 0 5 false).1.pointer = 2 ∧
+      (walk xEnv a 0 5 false).1.total = (canon xEnv {} 2).total ∧ (walk xEnv a 0 5 false).1.pool = [] := by decide
+-- the hypotheses of the C01 corollaries on the history with the two failing walks (operations 12 and 16)
+example : EnvOK xEnv {} := xEnvOK
+example : Inv xEnv {} xS0 := xInv0
+example : HistOK xEnv {} xS0 xOpsW := by decide
+example : xOpsW[12]? = some (.walk (-1) 2) ∧ hopFails xEnv (hrun xEnv xS0 (xOpsW.take 12)) (.walk (-1) 2) = true ∧
+    xOpsW[16]? = some (.walk 0 2) ∧ hopFails xEnv (hrun xEnv xS0 (xOpsW.take 16)) (.walk 0 2) = true := by decide
+example : TRefines (hrun xEnv xS0 (xOpsW.take 13)) (canon xEnv {} (hrun xEnv xS0 (xOpsW.take 13)).pointer) :=
+  (history_failed_walk_canonical xEnv {} xS0 xOpsW xEnvOK xInv0 (by decide) 12 (-1) 2 false [] (by decide)
+    (by decide)).2.2.1
+example : TRefines (hrun xEnv xS0 (xOpsW.take 17)) (canon xEnv {} (hrun xEnv xS0 (xOpsW.take 17)).pointer) :=
+  (history_failed_walk_canonical xEnv {} xS0 xOpsW xEnvOK xInv0 (by decide) 16 0 2 false [] (by decide)
+    (by decide)).2.2.1
+-- the whole history, hypotheses asked of the operations that did not fail only
+example : Inv xEnv {} (hrun xEnv xS0 xOpsW) := chain_refines_kept xEnv {} xS0 xOpsW xEnvOK xInv0 (by decide)
 
 end XV.C05
